@@ -247,6 +247,20 @@ Theorem c19_pipeline_flip_maps : forall analysis c os r address pc l f,
 Proof. exact pipeline_flip_maps. Qed.
 Print Assumptions c19_pipeline_flip_maps.
 
+(* the detail flags attached to a reported flip say what they claim: is_null iff the candidate is 0, was_low only for a
+   null candidate of a low original, was_non_canonical iff the bit range is 48..64, the nearby-register count is
+   between 0 and the number of valid registers and positive only above the low-address cutoff *)
+Theorem c19_details_consistent : forall a reg br ctx rs op f,
+  In f (try_bit_flips a reg br ctx rs op) ->
+  d_null (f_det f) = (f_addr f =? 0) /\
+  (d_low (f_det f) = true -> f_addr f = 0 /\ a <= LOW_ADDRESS_CUTOFF) /\
+  d_nc (f_det f) = (match br with Amd64NonCanonical => true | _ => false end) /\
+  0 <= d_nearby (f_det f) <= ctx_count ctx /\
+  (0 < d_nearby (f_det f) -> LOW_ADDRESS_CUTOFF < f_addr f) /\
+  (ctx = None -> d_nearby (f_det f) = 0 /\ d_poison (f_det f) = false).
+Proof. exact details_consistent. Qed.
+Print Assumptions c19_details_consistent.
+
 (* ---- non-vacuity ---- *)
 Example c19_nonvacuous_flip :
   let rs := [region_of_info 524288 8 0] in
